@@ -2657,6 +2657,154 @@ def check_matrix_mirror_search(ck, facts):
 
 
 # =====================================================================================================
+# pack -> collective -> unpack: writer and reader of a message buffer use one layout
+# =====================================================================================================
+
+def check_pack_unpack(ck, facts):
+    """Assembly::FunctionIntegralInfo (kernel/assembly/function_integral_jobs.hpp): synchronize(comm) packs the members into a buffer with _write_to(ptr, k, x), all-reduces the
+    buffer and unpacks it with _read_from(ptr, k, x).  (a) For every operand type the writer and the reader overload traverse the operand identically: same loop
+    extents (template dimensions; the driver instantiates non-square operands so that rows and columns differ), same subscripts of the operand relative to the loop
+    variable, same number of buffer-cursor advances.  (b) synchronize() unpacks, after every collective, exactly the members it packed before it, in the same order.
+    A reader that walks the columns where the writer walked the rows mis-assigns / overruns for every non-square Jacobian."""
+    rule = "E2.pack-unpack-agree"
+    by_cls = {}
+    for fn in facts.functions:
+        if fn.tk != "pattern" and strip_targs(fn.cls) == "FEAT::Assembly::FunctionIntegralInfo" and fn.name in ("_write_to", "_read_from", "synchronize") and fn.cfg is not None:
+            by_cls.setdefault(fn.cls, []).append(fn)
+
+    def const_of(rs, e, depth=0):
+        e = norm._strip(rs.value(e)) if e is not None else None
+        if e is None or depth > 6:
+            return None
+        if e.get("k") == "Int":
+            return int(e["v"])
+        if e.get("k") == "Ref" and e.get("v") is not None:
+            try:
+                return int(e["v"])
+            except (TypeError, ValueError):
+                return None
+        if e.get("k") == "Bin" and e.get("op") in ("+", "-", "*"):
+            a, b = const_of(rs, e["lhs"], depth + 1), const_of(rs, e["rhs"], depth + 1)
+            if a is None or b is None:
+                return None
+            return a + b if e["op"] == "+" else (a - b if e["op"] == "-" else a * b)
+        return None
+
+    def shape_of(fn):
+        """(normal form, reason it is not understood | None) of one pack / unpack overload: loop extents, subscripts of the operand, cursor advances"""
+        rs = Resolver(fn)
+        par = dfl.parents(fn)
+        xd, kd = fn.params[2]["d"], fn.params[1]["d"]
+        loops, why = [], None
+        lvars = {}
+        for L in dfl.own_nodes(fn):
+            if L.get("k") in ("For", "While", "Do", "ForRange"):
+                lr = norm.loop_range(fn, L, par) if L.get("k") in ("For", "While") else None
+                a, b = (const_of(rs, lr["start"]), const_of(rs, lr["bound"])) if lr is not None else (None, None)
+                if lr is None or a is None or b is None or lr["sign"] < 0:
+                    why = "loop at line %s is not a counting loop with constant bounds" % L.get("l")
+                    continue
+                n_ = b + 1 - a if lr["cmp"] == "<=" else b - a
+                lvars[lr["var"]] = len(loops)
+                loops.append((a, n_))
+        subs = set()
+        for n in dfl.own_nodes(fn):
+            b_ = ix = None
+            if n.get("k") == "OpCall" and n.get("op") in ("[]", "()") and len(n.get("a", [])) >= 2:
+                b_, ix = n["a"][0], n["a"][1:]
+            elif n.get("k") == "Index":
+                b_, ix = n["b"], [n["idx"]]
+            if b_ is not None and rs.path(b_).steps == (("param", xd),):
+                t = []
+                for i_ in ix:
+                    v = norm._strip(rs.value(i_))
+                    t.append("#%d" % lvars[v["d"]] if v is not None and v.get("k") == "Ref" and v.get("d") in lvars else (str(const_of(rs, i_)) if const_of(rs, i_) is not None else "?"))
+                subs.add(tuple(t))
+        if any("?" in t for t in subs):
+            why = why or "a subscript of the operand is not a loop variable / constant"
+        for c in calls_of(fn):
+            cal = strip_targs(c.get("callee", "") or "")
+            if c.get("k") == "Call" and (cal.startswith("std::") and cal not in dfl.MOVE_FNS or cal in ("memcpy", "memmove")):
+                why = why or "%s is not modelled (a standard algorithm instead of the loop)" % cal
+            elif dfl.lambda_body_of(rs, c) is not None:
+                why = why or "a closure is called"
+        kadv = []
+        for n in dfl.own_nodes(fn):
+            tgt = None
+            if n.get("k") == "Un" and n.get("op") in ("++",):
+                tgt = n["e"]
+            elif n.get("k") == "Assign" and n.get("op") == "+=" and const_of(rs, n["rhs"]) == 1:
+                tgt = n["lhs"]
+            if tgt is not None and rs.path(tgt).steps == (("param", kd),):
+                kadv.append(len(norm.loops_around(par, n)))
+        rec = sorted(callee_name(c) for c in calls_of(fn) if c.get("k") in ("Call", "MCall") and callee_name(c) == fn.name)
+        return (tuple(loops), tuple(sorted(subs)), tuple(sorted(kadv)), len(rec)), why
+    for cls, fns in sorted(by_cls.items()):
+        ck_ = short(strip_targs(cls).replace("FEAT::", ""))
+        pairs = {}
+        for fn in fns:
+            if fn.name in ("_write_to", "_read_from") and len(fn.params) == 3:
+                t = re.sub(r"^const |\s*&$", "", fn.type(fn.params[2]["t"]).strip()).strip()
+                pairs.setdefault(t, {})[fn.name] = fn
+        for t, d in sorted(pairs.items()):
+            key = "%s::_write_to/_read_from(%s)" % (ck_, short(t.replace("FEAT::", "")))
+            if len(d) != 2:
+                ck.incomplete(rule, "%s: only %s is instantiated for this operand type" % (key, ", ".join(d)))
+                continue
+            (sw, ww), (sr, wr_) = shape_of(d["_write_to"]), shape_of(d["_read_from"])
+            if ww or wr_:
+                ck.incomplete(rule, "%s: %s" % (key, ww or wr_))
+                continue
+            ok = sw == sr
+            ck.ob(rule, key, ok, ("writer and reader traverse the operand identically: loops (start, count) %s, subscripts %s" % (list(sw[0]), list(sw[1]))) if ok else
+                  "the writer traverses the operand with loops (start, count) %s, subscripts %s, %d cursor advance(s), %d nested call(s); the reader with loops %s, subscripts %s, %d, %d: what is "
+                  "packed is not what is unpacked" % (list(sw[0]), list(sw[1]), len(sw[2]), sw[3], list(sr[0]), list(sr[1]), len(sr[2]), sr[3]), d["_read_from"].file, d["_read_from"].line)
+        for fn in fns:
+            if fn.name != "synchronize":
+                continue
+            key = "%s::synchronize" % ck_
+            rs = Resolver(fn)
+            seq = []
+            for b_, pos, n in sorted(dfl.stmt_nodes_in_order(fn), key=lambda x: (x[2].get("l") or 0, x[2].get("i") or 0)):
+                if not is_call(n):
+                    continue
+                if callee_name(n) in ("_write_to", "_read_from") and len(n.get("a", [])) == 3:
+                    seq.append((callee_name(n), repr(rs.path(n["a"][2]))))
+                elif strip_targs(n.get("ccls", "") or "") == "FEAT::Dist::Comm" and callee_name(n).startswith("all"):
+                    seq.append(("collective", callee_name(n)))
+            if dfl.enclosing_loops and any(dfl.enclosing_loops(fn, dfl.parents(fn), n) for b_, pos, n in dfl.stmt_nodes_in_order(fn) if is_call(n) and callee_name(n) in ("_write_to", "_read_from")):
+                ck.incomplete(rule, "%s: members are packed / unpacked inside loops (not modelled)" % key)
+                continue
+            hidden = [c for c in calls_of(fn) if dfl.lambda_body_of(rs, c) is not None or (
+                c.get("k") in ("Call", "MCall") and strip_targs(c.get("ccls", "") or "") == "FEAT::Assembly::FunctionIntegralInfo" and callee_name(c) not in ("_write_to", "_read_from")
+                and not c.get("cconst") or (c.get("k") in ("Call", "MCall") and c.get("cstatic") and strip_targs(c.get("ccls", "") or "") == "FEAT::Assembly::FunctionIntegralInfo"
+                                            and callee_name(c) not in ("_write_to", "_read_from")))]
+            if hidden:
+                ck.incomplete(rule, "%s: packing / unpacking may be done by %s, which is not followed here" % (key, render(hidden[0])[:50]))
+                continue
+            problems = []
+            segs, cur = [], []
+            for what, x in seq:
+                if what == "collective":
+                    segs.append(cur)
+                    cur = []
+                else:
+                    cur.append((what, x))
+            segs.append(cur)
+            ncoll = len(segs) - 1
+            for i_ in range(ncoll):
+                packed = [x for what, x in segs[i_] if what == "_write_to"]
+                unpacked = [x for what, x in segs[i_ + 1] if what == "_read_from"]
+                if packed != unpacked:
+                    problems.append((fn.line, "collective #%d: packed %s but unpacked %s" % (i_ + 1, packed, unpacked)))
+            if ncoll == 0:
+                ck.incomplete(rule, "%s: no collective found between packing and unpacking" % key)
+                continue
+            ck.ob(rule, key, not problems, "; ".join("line %s: %s" % p_ for p_ in problems)[:600] or
+                  "%d collective(s); after each one exactly the members packed before it are unpacked, in the same order" % ncoll, fn.file, fn.line)
+
+
+# =====================================================================================================
 # two-pass mirror assembly: the counting pass and the filling pass visit the same entity dimensions
 # =====================================================================================================
 
@@ -3113,6 +3261,10 @@ def declare_rules(ck):
     ck.rule("E2.search-restart", "LAFEM::MatrixMirror::{gather, scatter_axpy} (CSR, BCSR): the linear equality search for the matrix entry that matches a buffer entry runs over the row "
             "segment [row_ptr[r], row_ptr[r+1]) and its cursor is re-initialised for every buffer entry. Broken (cursor kept across entries, 'sorted' assumption) => after the first "
             "received entry that is not in the local stencil the rest of that buffer row is dropped: type-1 matrices wrong at re-entrant corners", 4)
+    ck.rule("E2.pack-unpack-agree", "Assembly::FunctionIntegralInfo (kernel/assembly/function_integral_jobs.hpp): the _write_to / _read_from overload pair of every operand type (scalar, "
+            "Tiny::Vector, Matrix, Tensor3; non-square instantiations) traverses the operand identically (loop extents, subscripts, cursor advances), and synchronize() unpacks after "
+            "every collective exactly the members it packed before it, in order. Broken (reader loops over n_ columns where the writer loops over m_ rows) => wrong / overrunning "
+            "unpack of every non-square Jacobian after the all-reduce", 8)
     ck.rule("E3.mirror-two-pass", "Assembly::Intern::DofMirrorHelpWrapper::{count, fill} (kernel/assembly/mirror_assembler.hpp): the counting pass and the filling pass of the mirror "
             "recursion visit the same sub-passes (wrapper of dim-1, helper of dim) on every path. Broken (count returns 0 when the lower dimensions carry no dofs) => spaces with "
             "dofs on facets / cells only get an empty mirror: nothing is synchronised", 3)
@@ -3137,7 +3289,7 @@ def declare_rules(ck):
 
 MODELLED_MEMBERS = {m.split("/")[0] for ms in CURATED.values() for m in ms} | {
     "local", "get_comm", "get_freqs", "get_gate", "convert", "clone", "format", "copy", "clear", "component_product", "component_invert", "triple_dot",
-    "wait", "sync_0", "sync_1", "join", "join_send", "split", "split_recv", "gather", "scatter_axpy", "create_buffer", "buffer_size"}
+    "wait", "sync_0", "sync_1", "join", "join_send", "split", "split_recv", "gather", "scatter_axpy", "create_buffer", "buffer_size", "_write_to", "_read_from"}
 
 
 def inline_select(fn):
@@ -3168,7 +3320,7 @@ def run(tier):
     facts = load(ck)
     analyse(ck, facts, "double,u64")
     try:
-        fg = featlib.extract("tu/c13_gate_asm.cpp", files=R("control/asm/gate_asm.hpp") + "|" + R("kernel/lafem/tuple_mirror.hpp") + "|" + R("kernel/assembly/mirror_assembler.hpp"), mpi=True)
+        fg = featlib.extract("tu/c13_gate_asm.cpp", files=R("control/asm/gate_asm.hpp") + "|" + R("kernel/lafem/tuple_mirror.hpp") + "|" + R("kernel/assembly/mirror_assembler.hpp") + "|" + R("kernel/assembly/function_integral_jobs.hpp"), mpi=True)
         ck.tu(fg)
         for e in fg.errors_outside_repo():
             ck.incomplete("E1.tuple-gate-components", "driver tu/c13_gate_asm.cpp no longer matches the API: %s:%s %s" % (e["file"], e["line"], e["msg"]))
@@ -3177,6 +3329,7 @@ def run(tier):
         norm.run_with_inlining(ck, check_gate_tuple, fg, norm.InlinedFacts(fg, inline_select))
         norm.run_with_inlining(ck, check_tuple_mirror, fg, norm.InlinedFacts(fg, inline_select))
         norm.run_with_inlining(ck, check_mirror_two_pass, fg, norm.InlinedFacts(fg, inline_select))
+        norm.run_with_inlining(ck, check_pack_unpack, fg, norm.InlinedFacts(fg, inline_select))
     except featlib.AnalysisBroken as e:
         ck.incomplete("E1.tuple-gate-components", "tu/c13_gate_asm.cpp: MPI parse failed: %s" % str(e)[:200])
     if tier != "quick":
